@@ -10,6 +10,7 @@ open Pcore.Files
 #print axioms C15_name
 #print axioms C15_name_fresh
 #print axioms C15_found_iff_global
+#print axioms C15_absent
 #print axioms C15_absent_global
 #print axioms C15_error_global
 #print axioms C15_module_outcome
@@ -17,5 +18,9 @@ open Pcore.Files
 #print axioms C15_dependency_outcome
 #print axioms C15_found_iff_dependency
 #print axioms C15_absent_module
+#print axioms C15_error_no_binding
+#print axioms C15_error_state_global
+#print axioms C15_absent_stays_absent
 #print axioms C15_misnamed_no_line
 #print axioms C15_duplicate_redefine
+#print axioms C15_found_iff_fails
